@@ -75,6 +75,15 @@ func (mp MultiPolygon) Polygons() []Polygon {
 // The algorithm will not check to make sure the holes are
 // actually inside the outer rings.
 func (mp MultiPolygon) Centroid() Point {
+	// See Polygon.Centroid: the sums are cubic in the coordinates.
+	if k := centroidScale(mp...); k != 1 {
+		q := make(MultiPolygon, len(mp))
+		for i, p := range mp {
+			q[i] = p.scaled(k)
+		}
+		c := q.Centroid()
+		return Point{X: c.X * k, Y: c.Y * k}
+	}
 	var A, xA, yA float64
 	for _, p := range mp {
 		b := p.ringBounds()
